@@ -281,5 +281,20 @@ class State:
 
     def must(self, cond) -> bool:
         """is cond implied by the path condition?"""
+        # cheap attempt first: the quantifier-free part of the path condition (a subset of the assumptions: `unsat` carries over)
+        q = z3.Solver()
+        q.set("timeout", 1500)
+        nq = 0
+        for p in self.pc:
+            if not _has_quant(p):
+                q.add(p)
+            else:
+                nq += 1
+        q.add(z3.Not(cond))
+        r0 = q.check()
+        if r0 == z3.unsat:
+            return True
+        if nq == 0:
+            return False
         r, _ = self.check([z3.Not(cond)], timeout_ms=3000)
         return r == "unsat"
